@@ -12,9 +12,9 @@ from hv.core import Outcome, lib
 
 ID = "C17"
 RULE = (
-    "Hypothesis draws a key/value tree (depth 0..5, fan-out 0..8, UTF-8 keys of 1..60 bytes incl. multi-byte characters, values "
+    "Hypothesis draws a key/value tree (depth 0..5, fan-out 0..8, UTF-8 keys of 1..60 bytes incl. multi-byte characters and of 126..254 bytes, values "
     "of all types: Int (full int64), UInt (full uint64), Double (incl. +-inf, -0.0, NaN compared by bit pattern), String "
-    "(UTF-16-LE incl. astral characters and leading U+FEFF / U+FFFE, length 0..3000), Array (0..6000 bytes), Bool; values >= 0x800 bytes and some smaller "
+    "(UTF-16-LE incl. astral characters and leading U+FEFF / U+FFFE and embedded / trailing U+0000, length 0..3000), Array (0..6000 bytes), Bool; values >= 0x800 bytes and some smaller "
     "ones stored in file objects) and a serialisation: entries distributed over 1..6 key tables in shuffled order with "
     "parents in other tables, free entries (with zeroed or stale, unresolvable parent references) and slack bytes interleaved, file "
     "objects behind the tables or at offsets around and beyond 4 GiB (sparse in-memory file), table tail zero-filled or a free entry, stale key "
@@ -56,6 +56,8 @@ def leaf(draw):
         v = draw(st.text(alphabet=STR_ALPHABET, min_size=min(n, 3), max_size=n)) if n < 200 else (draw(st.text(alphabet=STR_ALPHABET, min_size=1, max_size=8)) * n)[:n]
         if n and draw(st.integers(0, 7)) == 0:
             v = draw(st.sampled_from(["\ufeff", "\ufffe"])) + v[1:]
+        if draw(st.integers(0, 9)) == 0:
+            v = draw(st.sampled_from([v[:-1] + "\x00", "\x00", v[: len(v) // 2] + "\x00" + v[len(v) // 2 + 1:], v[:-2] + "\x00\x00"]))  # NULs are data
     elif t == "array":
         n = draw(st.sampled_from([0, 1, 16, 100, 2047, 2048, 2049, 6000]))
         v = bytes((i * 7 + n) & 0xFF for i in range(n)).hex()
@@ -82,6 +84,15 @@ def tree_spec(draw, tier):
     def keys(n):
         ks = draw(st.lists(st.text(alphabet=KEY_ALPHABET, min_size=1, max_size=draw(st.sampled_from([4, 12, 30]))).filter(lambda k: len(k.encode()) <= 60),
                            min_size=n, max_size=n, unique=True))
+        # the key's length + terminator is stored in one unsigned byte: keys of up to 254 bytes
+        for i in range(len(ks)):
+            if draw(st.integers(0, 11)) == 0:
+                target = draw(st.sampled_from([126, 127, 128, 200, 253, 254]))
+                pad = ks[i]
+                while len((pad + "k").encode()) <= target:
+                    pad += "k"
+                if pad not in ks:
+                    ks[i] = pad
         return ks
 
     nroot = draw(st.integers(0, 3))
